@@ -1,10 +1,13 @@
 package props
 
 import (
+	"fmt"
 	"strings"
 	"testing"
 
 	"pgregory.net/rapid"
+
+	"verifharness/ref"
 )
 
 // C06 for the two commands that do not read a journal tree the way the reports do: infer (training set and
@@ -134,6 +137,103 @@ func drawC06Prices(t *rapid.T) C06Case {
 	return c
 }
 
-func TestC06Prices(t *testing.T) { runProp(t, "C06", "repeat-runs", drawC06Prices, checkC06) }
-func TestC06Infer(t *testing.T)  { runProp(t, "C06", "repeat-runs", drawC06Infer, checkC06) }
-func TestC06Import(t *testing.T) { runProp(t, "C06", "repeat-runs", drawC06Import, checkC06) }
+// drawC06Portfolio: the cases of the C20 generator with their own flags (universe file, -m, --account/--commodity,
+// window/interval/--last; leveraged positions with a zero total, hence Inf/NaN shares, included) under
+// `portfolio weights` (text and CSV, sorted by weight or by name) and `portfolio returns`.
+func drawC06Portfolio(t *rapid.T) C06Case {
+	returns := rapid.IntRange(0, 3).Draw(t, "returns") == 0
+	var pc C20Case
+	nonFinite := false
+	switch {
+	case returns:
+		pc = drawC20ReturnsCase(t)
+	case rapid.IntRange(0, 3).Draw(t, "nonFiniteClass") == 0:
+		pc, nonFinite = drawC06LeveragedClasses(t), true
+	default:
+		pc = drawC20Weights(t)
+	}
+	c := C06Case{Files: pc.files(), Class: "portfolio", Runs: 8}
+	if thorough() {
+		c.Runs = 24
+	}
+	if nonFinite {
+		c.Ties = append(c.Ties, "tie:non-finite-weights")
+		c.Runs = 2 * c.Runs
+	}
+	var args []string
+	if returns {
+		args = append([]string{"portfolio", "returns", "-v", pc.V}, pc.windowArgs()...)
+		args = append(args, pc.filterArgs()...)
+	} else {
+		args = append([]string{"portfolio", "weights", "--color=false", "-v", pc.V}, pc.windowArgs()...)
+		args = append(args, pc.filterArgs()...)
+		if pc.Universe != nil {
+			args = append(args, "--universe", "universe.yaml")
+		}
+		if pc.Mapping != "" {
+			args = append(args, "-m", pc.Mapping)
+		}
+		if rapid.Bool().Draw(t, "csv") {
+			args = append(args, "--csv")
+		}
+		if rapid.IntRange(0, 2).Draw(t, "alpha") == 0 {
+			args = append(args, "-a")
+		}
+		if rapid.IntRange(0, 2).Draw(t, "digits") == 0 {
+			args = append(args, "--digits", rapid.SampledFrom([]string{"0", "2", "14", "16"}).Draw(t, "digitsV"))
+		}
+	}
+	c.Argv = append(args, "j.knut")
+	held := map[string]bool{}
+	for _, d := range pc.Directives {
+		for _, b := range d.Bookings {
+			held[b.Com] = true
+		}
+	}
+	if len(held) >= 2 {
+		c.Ties = append(c.Ties, "tie:several-holdings")
+	}
+	if pc.Universe != nil {
+		c.Ties = append(c.Ties, "tie:universe-classes")
+	}
+	return c
+}
+
+// drawC06LeveragedClasses: a position bought entirely on a loan (net value exactly zero at the first report
+// dates: shares +Inf and -Inf, NaN for the class holding both), two more classes funded later with ordinary
+// shares, class names in a drawn order. The rows are sorted by weight by default: a weight that is not a
+// number must still have a fixed place.
+func drawC06LeveragedClasses(t *rapid.T) C20Case {
+	v := rapid.SampledFrom([]string{"CHF", "USD"}).Draw(t, "v")
+	coms := rapid.Permutation([]string{"AAPL", "BTC", "EUR", "Gold", "X1"}).Draw(t, "coms")[:3]
+	names := rapid.Permutation([]string{"Alternatives", "Bonds", "Cash", "Equities", "Metals"}).Draw(t, "classNames")[:3]
+	day := ref.FromCivil(rapid.IntRange(2015, 2022).Draw(t, "year"), rapid.IntRange(1, 12).Draw(t, "month"), rapid.IntRange(1, 10).Draw(t, "dom"))
+	var ds []ref.Directive
+	for _, a := range []string{"Assets:Broker", "Liabilities:Loan", "Equity:Equity"} {
+		ds = append(ds, ref.Directive{Kind: ref.KOpen, Date: day, Account: a})
+	}
+	prices := make([]int, 3)
+	for i, cm := range coms {
+		prices[i] = rapid.IntRange(1, 500).Draw(t, "price")
+		ds = append(ds, ref.Directive{Kind: ref.KPrice, Date: day, Com: cm, Target: v, Price: fmt.Sprint(prices[i])})
+	}
+	units := rapid.IntRange(1, 40).Draw(t, "units")
+	ds = append(ds, ref.Directive{Kind: ref.KTrx, Date: day + 1, Desc: "bought on margin", Bookings: []ref.Booking{
+		{Credit: "Equity:Equity", Debit: "Assets:Broker", Qty: fmt.Sprint(units), Com: coms[0]},
+		{Credit: "Liabilities:Loan", Debit: "Equity:Equity", Qty: fmt.Sprint(units * prices[0]), Com: v}}})
+	later := day + ref.Day(rapid.IntRange(25, 70).Draw(t, "later"))
+	for i := 1; i < 3; i++ {
+		ds = append(ds, ref.Directive{Kind: ref.KTrx, Date: later + ref.Day(i), Desc: "funded", Bookings: []ref.Booking{
+			{Credit: "Equity:Equity", Debit: "Assets:Broker", Qty: fmt.Sprint(rapid.IntRange(1, 60).Draw(t, "qty")), Com: coms[i]}}})
+	}
+	to := later + ref.Day(rapid.IntRange(10, 60).Draw(t, "tail"))
+	c := C20Case{Directives: ds, Text: ref.RenderAll(ds), V: v, To: &to,
+		Interval: int(rapid.SampledFrom([]ref.Interval{ref.Monthly, ref.Weekly, ref.Daily, ref.Quarterly}).Draw(t, "interval")),
+		Universe: map[string][]string{names[0]: {coms[0], v}, names[1]: {coms[1]}, names[2]: {coms[2]}}}
+	return c
+}
+
+func TestC06Portfolio(t *testing.T) { runProp(t, "C06", "repeat-runs", drawC06Portfolio, checkC06) }
+func TestC06Prices(t *testing.T)    { runProp(t, "C06", "repeat-runs", drawC06Prices, checkC06) }
+func TestC06Infer(t *testing.T)     { runProp(t, "C06", "repeat-runs", drawC06Infer, checkC06) }
+func TestC06Import(t *testing.T)    { runProp(t, "C06", "repeat-runs", drawC06Import, checkC06) }
